@@ -1,6 +1,7 @@
 package rules
 
 import (
+	"go/constant"
 	"go/types"
 	"strings"
 
@@ -472,87 +473,91 @@ func (c *Ctx) ruleHandlerArg(rule string) {
 	n := 0
 	for _, fn := range c.M.SortedFuncs(c.scopePkg("schema")) {
 		idx := 0
+		report := func(pos string, found bool, bad string) {
+			if !found {
+				return
+			}
+			idx++
+			n++
+			k := key(rule, c.M.Key(fn), sprintf("asserted value #%d reaches the handler only where the assertion succeeded", idx))
+			if bad == "" {
+				c.R.Ok(rule, k, pos, "argument of a handler", "handed over only behind the true verdict of the assertion it came out of (on the merge edge that carries it, at the call, through a flag merged alongside, or behind the nil error of the helper that made the assertion)")
+			} else {
+				c.R.Bad(rule, k, bad, "a handler is called with what a failed type assertion leaves behind",
+					"the verdict of the comma-ok assertion is not consulted on the way: for a value of another type the handler runs on the zero value of the asserted type - not the data it was registered for - and the call reports success")
+			}
+		}
 		for _, b := range fn.Blocks {
 			for _, in := range b.Instrs {
-				ta, ok := in.(*ssa.TypeAssert)
-				if !ok || !ta.CommaOk || ta.Referrers() == nil {
-					continue
-				}
-				var val, okv *ssa.Extract
-				for _, r := range *ta.Referrers() {
-					if ex, isEx := r.(*ssa.Extract); isEx {
-						if ex.Index == 0 {
-							val = ex
-						} else {
-							okv = ex
-						}
+				switch x := in.(type) {
+				case *ssa.TypeAssert:
+					val, okv := commaOkParts(x)
+					if val == nil {
+						continue
 					}
-				}
-				if val == nil {
-					continue
-				}
-				est := func(cond core.Cond) bool {
-					return okv != nil && core.Unwrap(cond.V) == ssa.Value(okv) && cond.True
-				}
-				var holds map[*ssa.BasicBlock]bool
-				// the calls of a function value read from a field of the receiver that are handed the value
-				bad, found := "", false
-				seen := map[ssa.Value]bool{}
-				var follow func(v ssa.Value, good bool, depth int)
-				follow = func(v ssa.Value, good bool, depth int) {
-					if v.Referrers() == nil || seen[v] || depth > 4 {
-						return
+					est := func(cond core.Cond) bool {
+						return okv != nil && core.Unwrap(cond.V) == ssa.Value(okv) && cond.True
 					}
-					seen[v] = true
-					for _, r := range *v.Referrers() {
-						switch x := r.(type) {
-						case *ssa.Phi:
-							if holds == nil {
-								holds = core.MustHold(fn, est)
-							}
-							edgeGood := true
-							for i, e := range x.Edges {
-								if e == v && !good && !holds[x.Block().Preds[i]] && !edgeEstablishes(x.Block().Preds[i], x.Block(), est) {
-									edgeGood = false
+					found, bad := c.handlerUses(fn, val, okv, est)
+					report(c.M.InstrPos(x), found, bad)
+				case *ssa.Call:
+					// a helper of the package that makes the assertion and hands out (value, error): its nil error stands
+					// for the true verdict, provided every way out of it that hands out an unverified value has an error
+					h := core.StaticBody(&x.Call)
+					if h == nil || h == fn || h.Pkg != fn.Pkg || h.Signature.Results().Len() != 2 || !core.IsErrorType(h.Signature.Results().At(1).Type()) || x.Referrers() == nil {
+						continue
+					}
+					var hval, hok *ssa.Extract
+					for _, hb := range h.Blocks {
+						for _, hin := range hb.Instrs {
+							if ta, isTA := hin.(*ssa.TypeAssert); isTA {
+								if v, o := commaOkParts(ta); v != nil && hval == nil {
+									hval, hok = v, o
 								}
 							}
-							follow(x, edgeGood, depth+1)
-						case *ssa.MakeInterface, *ssa.ChangeType, *ssa.ChangeInterface:
-							follow(x.(ssa.Value), good, depth+1)
-						case *ssa.Call:
-							if x.Call.IsInvoke() || x.Call.StaticCallee() != nil {
-								continue
-							}
-							ld, isLoad := x.Call.Value.(*ssa.UnOp)
-							if !isLoad {
-								continue
-							}
-							fa, isField := ld.X.(*ssa.FieldAddr)
-							if !isField || len(fn.Params) == 0 || !reachedFrom(fa.X, fn.Params[0], 0) {
-								continue
-							}
-							found = true
-							if holds == nil {
-								holds = core.MustHold(fn, est)
-							}
-							if !good && !holds[x.Block()] && bad == "" {
-								bad = c.M.InstrPos(x)
+						}
+					}
+					if hval == nil {
+						continue
+					}
+					var val, errv *ssa.Extract
+					for _, r := range *x.Referrers() {
+						if ex, isEx := r.(*ssa.Extract); isEx {
+							if ex.Index == 0 {
+								val = ex
+							} else {
+								errv = ex
 							}
 						}
 					}
-				}
-				follow(val, false, 0)
-				if !found {
-					continue
-				}
-				idx++
-				n++
-				k := key(rule, c.M.Key(fn), sprintf("asserted value #%d reaches the handler only where the assertion succeeded", idx))
-				if bad == "" {
-					c.R.Ok(rule, k, c.M.InstrPos(ta), "argument of a handler", "handed over only behind the true verdict of the assertion it came out of (on the merge edge that carries it, or at the call)")
-				} else {
-					c.R.Bad(rule, k, bad, "a handler is called with what a failed type assertion leaves behind",
-						"the verdict of the comma-ok assertion is not consulted on the way: for a value of another type the handler runs on the zero value of the asserted type - not the data it was registered for - and the call reports success")
+					if val == nil {
+						continue
+					}
+					est := func(cond core.Cond) bool {
+						e, neq, isNil := core.NilCmp(cond.V)
+						return isNil && errv != nil && e == ssa.Value(errv) && cond.True != neq
+					}
+					found, bad := c.handlerUses(fn, val, nil, est)
+					if found && bad == "" {
+						// the helper: a way out that hands out the asserted value without the verdict has an error
+						hest := func(cond core.Cond) bool {
+							return hok != nil && core.Unwrap(cond.V) == ssa.Value(hok) && cond.True
+						}
+						hholds := core.MustHold(h, hest)
+						for _, site := range core.RetSites(h, 0) {
+							if !derivedFrom(site.Val, func(v ssa.Value) bool { return v == ssa.Value(hval) }) {
+								continue
+							}
+							from := site.Ret.Block()
+							if len(site.Path) > 0 {
+								from = site.Path[0]
+							}
+							if !hholds[from] && !c.M.ProvablyNonNilError(core.RetVal(site.Ret, 1), site.Ret.Block()) {
+								bad = c.M.InstrPos(site.Ret)
+							}
+						}
+					}
+					report(c.M.InstrPos(x), found, bad)
 				}
 			}
 		}
@@ -560,6 +565,95 @@ func (c *Ctx) ruleHandlerArg(rule string) {
 	if n == 0 {
 		c.R.Unresolved(rule, "a handler (function value in a field of the receiver) that is handed the result of a comma-ok type assertion")
 	}
+}
+
+func commaOkParts(ta *ssa.TypeAssert) (val, okv *ssa.Extract) {
+	if !ta.CommaOk || ta.Referrers() == nil {
+		return nil, nil
+	}
+	for _, r := range *ta.Referrers() {
+		if ex, isEx := r.(*ssa.Extract); isEx {
+			if ex.Index == 0 {
+				val = ex
+			} else {
+				okv = ex
+			}
+		}
+	}
+	return val, okv
+}
+
+// handlerUses: the calls of a function value read from a field of fn's receiver that are handed val (a value that is
+// only good where est holds); found tells whether there is such a call, bad is the position of one that is reached
+// without est. A verdict that is merged alongside the value (`typed, matches := zero, true; if x != nil { typed, matches
+// = x.(T) }; if matches { handler(typed) }`) stands for it after the merge.
+func (c *Ctx) handlerUses(fn *ssa.Function, val ssa.Value, okv ssa.Value, est func(core.Cond) bool) (found bool, bad string) {
+	holds := core.MustHold(fn, est)
+	seen := map[ssa.Value]bool{}
+	var follow func(v ssa.Value, good bool, alt map[*ssa.BasicBlock]bool, depth int)
+	follow = func(v ssa.Value, good bool, alt map[*ssa.BasicBlock]bool, depth int) {
+		if v.Referrers() == nil || seen[v] || depth > 4 {
+			return
+		}
+		seen[v] = true
+		for _, r := range *v.Referrers() {
+			switch x := r.(type) {
+			case *ssa.Phi:
+				edgeGood := true
+				for i, e := range x.Edges {
+					if e == v && !good && !holds[x.Block().Preds[i]] && !edgeEstablishes(x.Block().Preds[i], x.Block(), est) {
+						edgeGood = false
+					}
+				}
+				nalt := alt
+				if !edgeGood && okv != nil {
+					// the verdict merged alongside: a merge of the same block that carries the verdict on every edge on
+					// which this one carries the value, and a constant true elsewhere
+					for _, in := range x.Block().Instrs {
+						y, isPhi := in.(*ssa.Phi)
+						if !isPhi || y == x {
+							continue
+						}
+						along := true
+						for i, e := range x.Edges {
+							if e == v {
+								if y.Edges[i] != okv {
+									along = false
+								}
+							} else if cst, isC := y.Edges[i].(*ssa.Const); !isC || cst.Value == nil || cst.Value.Kind() != constant.Bool || !constant.BoolVal(cst.Value) {
+								along = false
+							}
+						}
+						if along {
+							flag := y
+							nalt = core.MustHold(fn, func(cond core.Cond) bool { return core.Unwrap(cond.V) == ssa.Value(flag) && cond.True })
+						}
+					}
+				}
+				follow(x, edgeGood, nalt, depth+1)
+			case *ssa.MakeInterface, *ssa.ChangeType, *ssa.ChangeInterface:
+				follow(x.(ssa.Value), good, alt, depth+1)
+			case *ssa.Call:
+				if x.Call.IsInvoke() || x.Call.StaticCallee() != nil {
+					continue
+				}
+				ld, isLoad := x.Call.Value.(*ssa.UnOp)
+				if !isLoad {
+					continue
+				}
+				fa, isField := ld.X.(*ssa.FieldAddr)
+				if !isField || len(fn.Params) == 0 || !reachedFrom(fa.X, fn.Params[0], 0) {
+					continue
+				}
+				found = true
+				if !good && !holds[x.Block()] && !(alt != nil && alt[x.Block()]) && bad == "" {
+					bad = c.M.InstrPos(x)
+				}
+			}
+		}
+	}
+	follow(val, false, nil, 0)
+	return found, bad
 }
 
 // R-CTORFLAG (C18 "an error the handler returned is reported as function-reported, a call-shape problem is not"): the
